@@ -471,7 +471,7 @@ def run(tier, seed, rep):
         rep.add_many(res)
     from .c13 import api_configs
     napi = 0
-    acfgs = api_configs(tier, seed)
+    acfgs = [c for c in api_configs(tier, seed) if c.get('other_small') is None]      # (C13's own register-content variants)
     ajobs = [(c, 'udp', seed) for c in acfgs] + [(c, 'tcp', seed) for c in acfgs if c['family'] != 'ES'][::5]
     step = 1 if tier == 'thorough' else 6
     ajobs += [(dict(c, singles=True), 'udp', seed) for c in acfgs[seed % step::step]]
